@@ -37,6 +37,15 @@ def run_lock_check(tier, replay=None):
             {"a": "openstats", "h": 1, "p": 1}, {"a": "open", "h": 2, "p": 2}, {"a": "drop", "h": 1, "p": 1}, {"a": "open", "h": 2, "p": 2},
             {"a": "clone", "h": 2, "p": 2}, {"a": "dropcas", "h": 2, "p": 2}, {"a": "open", "h": 3, "p": 1}, {"a": "put", "h": 2, "p": 2},
             {"a": "kill", "h": 0, "p": 2}, {"a": "open", "h": 3, "p": 1}, {"a": "open", "h": 1, "p": 1}]})
+        # a grandchild spawned while the handle was open must not keep the lock; Async mode releases the lock on drop too
+        scen.append({"id": "C11-spawn", "np": 2, "nh": 3, "races": 0, "actions": [
+            {"a": "open", "h": 1, "p": 1}, {"a": "spawn", "h": 1, "p": 1}, {"a": "open", "h": 2, "p": 2}, {"a": "drop", "h": 1, "p": 1},
+            {"a": "open", "h": 2, "p": 2}, {"a": "spawn", "h": 2, "p": 2}, {"a": "kill", "h": 0, "p": 2}, {"a": "open", "h": 3, "p": 1}]})
+        for rep in range(3 if q else 20):
+            scen.append({"id": f"C11-async{rep}", "np": 2, "nh": 3, "races": 0, "actions": [
+                {"a": "openasync", "h": 1, "p": 1}, {"a": "put", "h": 1, "p": 1}, {"a": "cycle", "h": 1, "p": 1}, {"a": "put", "h": 1, "p": 1}, {"a": "drop", "h": 1, "p": 1},
+                {"a": "openasync", "h": 2, "p": 2}, {"a": "open", "h": 3, "p": 1}, {"a": "put", "h": 2, "p": 2}, {"a": "kill", "h": 0, "p": 2},
+                {"a": "open", "h": 3, "p": 1}, {"a": "drop", "h": 3, "p": 1}, {"a": "openasync", "h": 1, "p": 1}]})
     log(f"[{prop}] MCLock: {mc['distinct']} distinct states; {len(scen)} scenarios with real processes")
     wd = workdir()
     nsh = 8
